@@ -215,6 +215,9 @@ class Fns(object):
         n = [0]
 
         def fn():
+            # the count callable is pre-emptible user code; the pre-emption point sits before the
+            # value is decided, so that "recorded" and "returned" stay one atomic step for the oracle
+            env.sim.yield_point("user-count")
             k = seq[min(n[0], len(seq) - 1)]
             n[0] += 1
             env.rec("ufn", "count", i, k)
